@@ -4,7 +4,7 @@
    sequences up to the tier's length and mutates corpus programs with the same tokens. *)
 EXTENDS Sequences, Json, TLC
 Tokens == << "x", "é", ".a", ".", "%m", ".\"b c\"", ".a[0]", ".a[-1]", "1", "1.5", "\"s\"", "\"é{{ x }}\"", "\"\\n\\t\\\\\"", "s'r'", "r'a'", "t'2021-01-01T00:00:00Z'",
-             "null", "true", "=", "==", "!=", "+", "-", "*", "/", "||", "&&", "??", "|", "|=", "!", "(", ")", "{", "}", "[", "]", ",", ":", ";",
+             "\"\\u{}\"", "\"\\u{D800}\"", "\"\\u{1F600}é\"", "\"\\x\"", " ", "x.\"é\\\"\"", "x = to_string(.a)", "x.\"é\" = 2", "null", "true", "=", "==", "!=", "+", "-", "*", "/", "||", "&&", "??", "|", "|=", "!", "(", ")", "{", "}", "[", "]", ",", ":", ";",
              "\n", "if", "else", "abort", "return", "upcase", "del", "for_each", "->", "_", "#c\n", "..", "<", ">=", "\"", "'", "\\", "😀", "{{", "%" >>
 ASSUME PrintT(<<"TOKENS", ToJson(Tokens)>>)
 VARIABLE dummy
